@@ -183,6 +183,8 @@ func spendSize(x XValue, asJSON bool, indent int, depth int, budget *int) bool {
 			if indent > 0 && depth > 0 {
 				*budget -= strings.Count(typed.Native(), "\n") * indent * depth // every line is indented
 			}
+		case *XError:
+			*budget -= len(typed.Error())
 		case *XNumber:
 			exp := int(typed.Native().Exponent())
 			*budget -= typed.Native().Coefficient().BitLen()/3 + max(exp, -exp)
